@@ -111,6 +111,9 @@ type Unit struct {
 	Name string
 	Run  func(r *Rec)
 	Tier string // the tier this unit runs at when it differs from the run's tier
+	// Early units run before the others: the short ones of a check, so that a change of the library which makes
+	// every long unit slower cannot use up the budget before them (the budget is a deadline, not an oracle).
+	Early bool
 }
 
 // unitsFor returns the units of a run. The thorough tier first repeats the
@@ -118,17 +121,29 @@ type Unit struct {
 // units never leaves a family of programs with less coverage than the quick
 // tier gives it.
 func unitsFor(c *Check, tier string) []Unit {
-	us := c.Units(tier)
+	us := earlyFirst(c.Units(tier))
 	if tier != "thorough" {
 		return us
 	}
 	var all []Unit
-	for _, u := range c.Units("quick") {
+	for _, u := range earlyFirst(c.Units("quick")) {
 		u.Name = "quick/" + u.Name
 		u.Tier = "quick"
 		all = append(all, u)
 	}
 	return append(all, us...)
+}
+
+func earlyFirst(us []Unit) []Unit {
+	var head, tail []Unit
+	for _, u := range us {
+		if u.Early {
+			head = append(head, u)
+		} else {
+			tail = append(tail, u)
+		}
+	}
+	return append(head, tail...)
 }
 
 // Check is the machinery deciding one property.
